@@ -38,7 +38,8 @@ WOVEN = os.path.join(BUILD, 'woven')
 KANI_TARGET = os.path.join(BUILD, 'kani-target')
 CONTRACTS = os.path.join(VERIF, 'contracts')
 JOBS = int(os.environ.get('VERIF_JOBS', '16'))
-MEM_LIMIT_KB = int(os.environ.get('VERIF_CBMC_MEM_GB', '14')) * 1024 * 1024
+MEM_LIMIT_KB = int(os.environ.get('VERIF_CBMC_MEM_GB', '10')) * 1024 * 1024
+TOTAL_MEM_LIMIT_KB = int(os.environ.get('VERIF_TOTAL_MEM_GB', '44')) * 1024 * 1024
 
 IGNORED_CHECK_PATTERNS = [
     # NaN is a legal Lua value; Kani's default float checks flag every operation
@@ -73,6 +74,7 @@ class Watchdog(threading.Thread):
             pgid = self.pgid_getter()
             if pgid is None:
                 continue
+            procs = []
             for pid in os.listdir('/proc'):
                 if not pid.isdigit():
                     continue
@@ -85,11 +87,20 @@ class Watchdog(threading.Thread):
                         continue
                     with open('/proc/%s/status' % pid) as f:
                         m = re.search(r'VmRSS:\s+(\d+) kB', f.read())
-                    if m and int(m.group(1)) > MEM_LIMIT_KB:
-                        os.kill(int(pid), signal.SIGKILL)
-                        self.killed.append(int(pid))
+                    if m:
+                        procs.append((int(m.group(1)), int(pid)))
                 except (OSError, ValueError):
                     continue
+            procs.sort(reverse=True)
+            total = sum(r for r, _ in procs)
+            for rss, pid in procs:
+                if rss > MEM_LIMIT_KB or total > TOTAL_MEM_LIMIT_KB:
+                    try:
+                        os.kill(pid, signal.SIGKILL)
+                        self.killed.append(pid)
+                        total -= rss
+                    except OSError:
+                        pass
 
 
 def run_cmd(cmd, cwd, timeout, env=None, logfile=None):
@@ -435,7 +446,7 @@ def full_name(h):
     parts = rel[4:-3].split('/')
     if parts[-1] in ('mod', 'lib'):
         parts = parts[:-1]
-    return '::'.join(parts + ['verif_kani', h.name])
+    return '::'.join(parts + ['verif_dev' if h.name.startswith('vk_dev_') else 'verif_kani', h.name])
 
 
 def replay_kani(h, descs, prop):
